@@ -179,7 +179,9 @@ mod search_c04 {
                     sorted.sort_by_key(|k| { let mut d = [0u8; 32]; for x in 0..32 { d[x] = k[x] ^ target[x]; } d });
                     sorted.truncate(count);
                     if keys != sorted {
-                        panic!("VERIF-SEARCH-HIT C02/local/answer_is_the_min_count_size_closest_known_peers_ascending count={} known={} got={} keys", count, all_keys.len(), keys.len());
+                        let missing: Vec<String> = sorted.iter().filter(|k| !keys.contains(k)).map(|k| hex::encode(&k[..4])).collect();
+                        let extra: Vec<String> = keys.iter().filter(|k| !sorted.contains(k)).map(|k| hex::encode(&k[..4])).collect();
+                        panic!("VERIF-SEARCH-HIT C02/local/answer_is_the_min_count_size_closest_known_peers_ascending target={} count={} known peers={} (routing table {} + connected {}, some in both, some connected without a known address); the answer has {} entries; missing closest peers (key prefix): {:?}; listed instead: {:?}", hex::encode(&target[..4]), count, all_keys.len(), table_keys.len(), connected.len(), keys.len(), missing, extra);
                     }
                 }
             }
